@@ -1,6 +1,102 @@
 import TabulaModel.Util
+import TabulaModel.Model.Markdown
+/-!
+Line protocol of C15 (see harness/c15):
+* `c15.mdtab <w> <rows>`      rows `;`-separated, cells `,`-separated hex → hex of `render w t`
+* `c15.mdspan <w> <rows>`     cells `hex:span:cont` → hex of `renderSpan w t` (docx, odt)
+* `c15.mdrow <w> <cells>`     → hex of `renderRow w cells`
+* `c15.gfm <hex doc>`         → `none` | `ok <rows>` (`gfmTable`)
+* `c15.splitrow <hex line>`   → `<cells> <count>` (`gfmSplitRow`)
+* `c15.hlvl <l> <off> <max>`  → `headingLevel`;  `c15.hlvlrag …` → `headingLevelRag`
+* `c15.atx <hex line>`        → `none` | `<level> <hex text>` (`parseAtx`)
+* `c15.list <depth>:<o|u>:<num>:<hex text>` → hex of `listLine`
+* `c15.listparse <hex line>`  → `none` | `<depth> <o|u> <hex text>` (`parseListLine`)
+-/
 namespace Tabula.C15H
+open Tabula Tabula.Markdown
 
-def handle (_op : String) (_args : List String) : String := "bad-op"
+abbrev Str := List Nat
+def toStr (b : Bytes) : Str := b.map (·.toNat)
+def ofStr (s : Str) : Bytes := s.map UInt8.ofNat
+def hexS (s : Str) : String := hex (ofStr s)
+def unhexS (s : String) : Option Str := (unhex s).map toStr
+
+def hexList (xs : List Str) : String := ",".intercalate (xs.map hexS)
+
+def writerOf : String → Option Writer
+  | "model" => some .model | "docx" => some .docx | "odt" => some .odt
+  | "xlsx" => some .xlsx | "pptx" => some .pptx | "html" => some .html
+  | _ => none
+
+def parseRow (s : String) : Option (List Str) := (s.splitOn ",").mapM unhexS
+
+def parseTable (s : String) : Option (List (List Str)) := (s.splitOn ";").mapM parseRow
+
+def parseSCell (s : String) : Option SCell :=
+  match s.splitOn ":" with
+  | [h, sp, ct] => do
+    let t ← unhexS h
+    let n ← sp.toInt?
+    pure ⟨t, n, ct == "1"⟩
+  | _ => none
+
+def parseSpanTable (s : String) : Option (List (List SCell)) :=
+  (s.splitOn ";").mapM fun row => (row.splitOn ",").mapM parseSCell
+
+def encTable (t : List (List Str)) : String := ";".intercalate (t.map hexList)
+
+def handle (op : String) (args : List String) : String :=
+  match op, args with
+  | "c15.mdtab", [w, rows] =>
+    match writerOf w, parseTable rows with
+    | some w, some t => hexS (render w t)
+    | _, _ => "bad-op"
+  | "c15.mdspan", [w, rows] =>
+    match writerOf w, parseSpanTable rows with
+    | some .html, some t => hexS (renderHtmlSpan t)
+    | some w, some t => hexS (renderSpan w t)
+    | _, _ => "bad-op"
+  | "c15.mdrow", [w, cells] =>
+    match writerOf w, parseRow cells with
+    | some w, some r => hexS (renderRow w r)
+    | _, _ => "bad-op"
+  | "c15.gfm", [doc] =>
+    match unhexS doc with
+    | some d => (match gfmTable d with
+      | some rows => "ok " ++ encTable rows
+      | none => "none")
+    | none => "bad-op"
+  | "c15.splitrow", [line] =>
+    match unhexS line with
+    | some l => let cs := gfmSplitRow l; s!"{hexList cs} {cs.length}"
+    | none => "bad-op"
+  | "c15.hlvl", [l, o, m] =>
+    match l.toInt?, o.toInt?, m.toInt? with
+    | some l, some o, some m => toString (headingLevel l o m)
+    | _, _, _ => "bad-op"
+  | "c15.hlvlrag", [l, o, m] =>
+    match l.toInt?, o.toInt?, m.toInt? with
+    | some l, some o, some m => toString (headingLevelRag l o m)
+    | _, _, _ => "bad-op"
+  | "c15.atx", [line] =>
+    match unhexS line with
+    | some l => (match parseAtx l with
+      | some (n, t) => s!"{n} {hexS t}"
+      | none => "none")
+    | none => "bad-op"
+  | "c15.list", [item] =>
+    match item.splitOn ":" with
+    | [d, k, n, t] =>
+      (match d.toNat?, n.toNat?, unhexS t with
+      | some d, some n, some t => hexS (listLine ⟨d, k == "o", n, t⟩)
+      | _, _, _ => "bad-op")
+    | _ => "bad-op"
+  | "c15.listparse", [line] =>
+    match unhexS line with
+    | some l => (match parseListLine l with
+      | some (d, o, t) => s!"{d} {if o then "o" else "u"} {hexS t}"
+      | none => "none")
+    | none => "bad-op"
+  | _, _ => "bad-op"
 
 end Tabula.C15H
